@@ -19,9 +19,9 @@ theorem C10_transparent_table : transparent = [SIGINT] ∧ SIGINT ∉ quiet := b
 
 /-! ## witnesses (replayed on the real code on every run: corpus/C10/*.req) -/
 
-/-- repaired (fix e283baa): one SIGALRM sent while stopped, then `stepi` -/
+/-- repaired (fix b8881fa): one SIGALRM sent while stopped, then `stepi` -/
 def wTwice : D := (D.init [.point]).run [.brk, .start, .send true 14, .stepi, .drain]
-/-- repaired (fix a34f802): SIGALRM and SIGURG pending, `stepi` -/
+/-- repaired (fix 4f1e4d9): SIGALRM and SIGURG pending, `stepi` -/
 def wPanic : D := (D.init [.point]).run [.brk, .start, .send true 14, .send true 23, .stepi, .drain]
 /-- the defect that is left: SIGUSR1 and SIGUSR2 pending at a breakpoint, three `continue`s -/
 def wBurst : D := (D.init [.point]).run [.brk, .start, .send true 10, .send true 12, .cont, .cont, .cont, .drain]
